@@ -2035,9 +2035,14 @@ class latest(Stream):
 
     @gen.coroutine
     def cb(self):
+        last = None
         while True:
-            yield self.condition.wait()
-            [x] = self.next
+            # An element that arrived while we were busy emitting downstream had
+            # nobody to notify; only wait if the slot holds nothing new.
+            while not self.next or self.next is last:
+                yield self.condition.wait()
+            last = self.next
+            [x] = last
             yield self._emit(x, self.next_metadata)
 
 
